@@ -52,7 +52,80 @@ func newMonC14(s *Sim) *MonC14 {
 }
 
 func (m *MonC14) Name() string { return "C14" }
-func (m *MonC14) AtEnd(s *Sim)  {}
+func (m *MonC14) AtEnd(s *Sim)  { m.drain(s, "end_of_run") }
+
+// drain: two clauses of C14 that agents' own claims only sample - "claiming what has vested always
+// succeeds" and "[the cumulative amount released] equals the total once the schedule has elapsed".
+// For EVERY account that holds vesting entries (whether or not its owner is claiming in this
+// history), on discarded branches of the committed state: (a) a claim now must succeed; (b) with the
+// height moved past the end of every one of its schedules a single claim must succeed, pay exactly
+// the unreleased remainder of every entry (sum of total - released, per denom) and leave no entry
+// behind. Module accounts (the provider-rewards account vests through a hook and cannot receive
+// through a message) are skipped.
+func (m *MonC14) drain(s *Sim, when string) {
+	app := s.N0.App
+	base := s.Ctx()
+	for _, cm := range app.CommitmentKeeper.GetAllCommitments(base) {
+		if len(cm.VestingTokens) == 0 {
+			continue
+		}
+		addr, err := sdk.AccAddressFromBech32(cm.Creator)
+		if err != nil || app.BankKeeper.BlockedAddr(addr) {
+			continue
+		}
+		end := base.BlockHeight()
+		want := map[string]sdkmath.Int{}
+		for _, v := range cm.VestingTokens {
+			if e := v.StartBlock + v.NumBlocks; e > end {
+				end = e
+			}
+			want[v.Denom] = zeroIfNil(want, v.Denom).Add(v.TotalAmount.Sub(v.ClaimedAmount))
+		}
+		for _, elapsed := range []bool{false, true} {
+			ctx, _ := base.CacheContext()
+			ctx = ctx.WithEventManager(sdk.NewEventManager())
+			if elapsed {
+				ctx = ctx.WithBlockHeight(end + 1 + int64(len(cm.VestingTokens)))
+			}
+			before := app.BankKeeper.GetAllBalances(ctx, addr)
+			err := func() (err error) {
+				defer func() {
+					if rec := recover(); rec != nil {
+						err = fmt.Errorf("panic: %v", rec)
+					}
+				}()
+				_, err = app.CommitmentKeeper.ClaimVesting(ctx, &commitmenttypes.MsgClaimVesting{Sender: cm.Creator})
+				return err
+			}()
+			if err != nil {
+				s.Violate("C14", "claim_failed_in_probe", "drain/"+when, "%s: a claim at height %d (schedule elapsed on the branch: %v) fails: %v; entries: %s", shortAddr(cm.Creator), ctx.BlockHeight(), elapsed, err, fmtVesting(cm.VestingTokens))
+				break
+			}
+			s.Stats.Probe("vesting_claim_probe_ok")
+			if !elapsed {
+				continue
+			}
+			after := app.BankKeeper.GetAllBalances(ctx, addr)
+			for d, w := range want {
+				if got := after.AmountOf(d).Sub(before.AmountOf(d)); !got.Equal(w) {
+					s.Violate("C14", "elapsed_schedule_does_not_release_total", "drain/"+when, "%s: with every schedule elapsed (branch height %d) a claim released %s %s, the unreleased remainder of the entries is %s; entries: %s", shortAddr(cm.Creator), ctx.BlockHeight(), got, d, w, fmtVesting(cm.VestingTokens))
+				}
+			}
+			if left := app.CommitmentKeeper.GetCommitments(ctx, addr).VestingTokens; len(left) != 0 {
+				s.Violate("C14", "entry_left_after_elapsed_claim", "drain/"+when, "%s: %d vesting entries remain after a claim past the end of every schedule: %s", shortAddr(cm.Creator), len(left), fmtVesting(left))
+			}
+			s.Stats.Probe("vesting_elapsed_schedule_checked")
+		}
+	}
+}
+
+func fmtVesting(vs []*commitmenttypes.VestingTokens) string {
+	out := ""
+	for _, v := range vs {
+		out += fmt.Sprintf("{%s total=%s released=%s start=%d blocks=%d} ", v.Denom, v.TotalAmount, v.ClaimedAmount, v.StartBlock, v.NumBlocks)
+	}
+	return out
+}
 
 func vestingMsgOwner(msg sdk.Msg) (string, bool) {
 	switch x := msg.(type) {
@@ -336,6 +409,9 @@ func (m *MonC14) AfterBlock(s *Sim, eb *ExecBlock) {
 		s.Violate("C14", "claim_failed", "commitment.MsgClaimVesting", "%s: claim at height %d failed (code %d): %s; entries: %s", owner, eb.Height, t.Res.Code, truncate(firstLine(t.Res.Log), 200), fmtEntries(m.pre[t.Index].entries))
 	}
 	m.pre = map[int]*vestSnap{}
+	if eb.Height%31 == 0 {
+		m.drain(s, "sampled")
+	}
 }
 
 func firstLine(s string) string { return strings.SplitN(s, "\n", 2)[0] }
